@@ -13,6 +13,9 @@ type groupFn func(e *Env) (*Summary, error)
 var groups = map[string]groupFn{}
 
 func main() {
+	if os.Getenv("KVH_CRASH_WORKER") == "1" {
+		os.Exit(crashWorker())
+	}
 	group := flag.String("group", "", "operation group (LEX, ERRFMT, …)")
 	tier := flag.String("tier", "quick", "quick | thorough")
 	seed := flag.Uint64("seed", 1, "PRNG seed")
